@@ -308,6 +308,7 @@ func genGs[O any](t *rapid.T, g *rapid.Generator[O]) [][]O {
 
 func genTraceConc(t *rapid.T) TProg {
 	p := TProg{Init: genInit(t)}
+	genReentrant(t, &p)
 	p.Pre = rapid.IntRange(0, 8).Draw(t, "pre")
 	p.Gs = genGs(t, genRawTOp(true))
 	p.Post = rapid.SliceOfN(genRawTOp(false), 0, 8).Draw(t, "post")
@@ -365,6 +366,7 @@ func runTraceConc(p TProg) ([]vk.Violation, vk.Info) {
 			vs, cl = oracleTraceConc(h)
 		}
 		attachHistory(vs, h.render())
+		reentrantClasses(h, func(c string) { all[c] = true })
 		cleanup()
 		for k, v := range cl {
 			all[k] = all[k] || v
